@@ -264,4 +264,13 @@ def rule_dispatch(ctx):
     ctx.floor("PRN-P", "dispatch_cases", n, 8)
 
 
-RULES = [rule_tokens, rule_precedence, rule_dispatch, rule_lists]
+def rule_fresh_names_are_variables(ctx):
+    """what `simplify` prints must parse again: a variable invented by a rewrite has to be a variable of the grammar - an upper-case letter
+    followed by an index (C07's chooser obligations: prefix, candidate shape)"""
+    from . import c07
+    sub = type(ctx)(ctx.prop, ctx.tier, ctx.facts)
+    c07.rule_fresh_names(sub)
+    ctx.obls.extend(o for o in sub.obls if o["key"].startswith("FRESH:classic-chooser:"))
+
+
+RULES = [rule_tokens, rule_precedence, rule_dispatch, rule_lists, rule_fresh_names_are_variables]
